@@ -88,3 +88,25 @@ Fixpoint l0ok (s : str) (d : nat) : bool :=
   | [] => true
   | c :: t => (match d with O => nospace c | _ => true end) && l0ok t (bl_step d c)
   end.
+
+(* ---- the tokenizer of the property text: "split into tokens at brace-level-0 whitespace and ties".
+   One pass over the characters with the brace level [d], whether the previous character was a
+   backslash [pb], and the current token [cur] (reversed).  At brace level 0 a separator character
+   ends the current token and is dropped: a whitespace character, a tie '~' that is not escaped by a
+   preceding backslash, and the backslash of a control space "\ " (the space after it is whitespace
+   anyway).  Everything else, and everything at brace level > 0, belongs to the current token. ---- *)
+Definition flush (cur : str) (rest : list str) : list str :=
+  match cur with [] => rest | _ :: _ => rev cur :: rest end.
+Definition is_sep_at (pb : bool) (c : char) (next : option char) : bool :=
+  is_space c
+  || (N.eqb c c_tilde && negb pb)
+  || (N.eqb c c_bslash && match next with Some n => N.eqb n c_space | None => false end).
+Fixpoint spec_tok (s : str) (d : nat) (pb : bool) (cur : str) : list str :=
+  match s with
+  | [] => flush cur []
+  | c :: t =>
+    if Nat.eqb d 0 && is_sep_at pb c (hd_error t)
+    then flush cur (spec_tok t 0 (N.eqb c c_bslash) [])
+    else spec_tok t (bl_step d c) (N.eqb c c_bslash) (c :: cur)
+  end.
+Definition spec_tokens (s : str) : list str := spec_tok s 0 false [].
